@@ -1,7 +1,9 @@
 """Driver of C12 / C02 (run as a subprocess under strace).
 usage: c12_driver.py <spec.json> <out.json>
 spec: {folder, conf, fsync, request: {method, path, data, login, headers}, list_before: [dirs], list_after: [dirs],
-       fsize: RLIMIT_FSIZE during the request (optional), followups: [requests]}
+       fsize: RLIMIT_FSIZE during the request (optional), followups: [requests],
+       startup: the traced phase starts before the Application is constructed (optional)}
+       request may be {api: create_collection, path, props, user} (direct storage call)
 Marks (stat of /rv-mark/<label>) cut the trace: setup-done, req, end."""
 import json
 import os
@@ -30,10 +32,17 @@ def listing(folder, dirs):
 
 def main():
     spec = json.load(open(sys.argv[1]))
-    srv = impl.Server(conf=spec.get("conf"), folder=spec["folder"], fsync=spec.get("fsync", True))
     out = {}
-    mark("setup-done")
-    out["before"] = listing(spec["folder"], spec.get("list_before", []))
+    if spec.get("startup"):
+        # the start-up is part of the history: the Application is constructed inside the traced phase
+        # (first start on a storage location that does not exist yet)
+        mark("setup-done")
+        out["before"] = {}
+        mark("req")
+    srv = impl.Server(conf=spec.get("conf"), folder=spec["folder"], fsync=spec.get("fsync", True))
+    if not spec.get("startup"):
+        mark("setup-done")
+        out["before"] = listing(spec["folder"], spec.get("list_before", []))
     r = spec["request"]
     limit = None
     if spec.get("fsize"):
@@ -43,9 +52,17 @@ def main():
         signal.signal(signal.SIGXFSZ, signal.SIG_IGN)
         limit = resource.getrlimit(resource.RLIMIT_FSIZE)
         resource.setrlimit(resource.RLIMIT_FSIZE, (spec["fsize"], limit[1]))
-    mark("req")
+    if not spec.get("startup"):
+        mark("req")
     try:
-        st, h, b = srv.request(r["method"], r["path"], data=r.get("data"), login=r.get("login"), **r.get("headers", {}))
+        if r.get("api") == "create_collection":
+            # the storage API called directly (a plugin / the handlers' own call with a missing parent chain)
+            storage_ = srv.application._storage
+            with storage_.acquire_lock("w", r.get("user", "")):
+                storage_.create_collection(r["path"], props=r.get("props"))
+            st, h = 201, {}
+        else:
+            st, h, b = srv.request(r["method"], r["path"], data=r.get("data"), login=r.get("login"), **r.get("headers", {}))
         out["status"] = st
         out["etag"] = h.get("ETag")
     except BaseException as e:
